@@ -33,7 +33,7 @@ LEVEL_NOTE = (
 TECHNIQUE = "deterministic simulation: seeded thread schedules (baton passing at actor calls and line steps), nesting, frozen inputs, log-sink faults; oracle = solo-run digest"
 DESIGN_REF = "DESIGN.md 4.8"
 BUDGET = {
-    "quick": {"plans": 500, "wall": 70, "chunk": 4},
+    "quick": {"plans": 4000, "wall": 90, "chunk": 4},
     "thorough": {"plans": 40000, "wall": 900, "chunk": 8},
 }
 RULE = (
